@@ -536,3 +536,65 @@ func truncateOwns(w *World, c ssa.CallInstruction) bool {
 	}
 	return false
 }
+
+// checkpointCountsOnlyTheWalked (C01): the funds that a truncation folds into the checkpoint are those of the vertices the
+// save walk visits — the ancestors of the cut, each of which has a child and was therefore validated when that child was
+// built on it. A vertex handed to the fold from anywhere else (a sweep over the graph, a tip) is counted without ever
+// having been validated: the truncation confirms it.
+func checkpointCountsOnlyTheWalked(w *World, r *Report, rule string) {
+	r.rule(rule, "truncate: fundsMemMap.nextVertex is called only inside the callback of the save walk, and that callback is used for nothing but the save walk (it is not called directly and not handed to another walk): only ancestors of the cut — vertices that have a child — are folded into the checkpoint", 1)
+	m := truncateModel(w)
+	if !m.complete() {
+		r.bad(rule, "truncate/walks", "-", "truncate consists of a depth walk, a funds/save walk, a collecting walk and the deletion of what was collected", m.describe())
+		return
+	}
+	cb := m.save.cb
+	bad := ""
+	// 1. every fold call sits in the callback (or in a helper only the callback reaches)
+	inCb := map[*ssa.Function]bool{cb: true}
+	for _, d := range deepCalls(cb, func(ssa.CallInstruction) bool { return true }, 2) {
+		if cal := d.c.Common().StaticCallee(); cal != nil && isRepoFunc(cal) {
+			only := true
+			for _, cs := range staticCallers(w, cal) {
+				if !inCb[cs.Parent()] {
+					only = false
+				}
+			}
+			if only {
+				inCb[cal] = true
+			}
+		}
+	}
+	nFold := 0
+	for _, fn := range w.RepoFuncs("accountant") {
+		for _, c := range callsTo(fn, nNextVertex) {
+			nFold++
+			if !inCb[fn] {
+				bad += fmt.Sprintf(" nextVertex is called in %s at %s, outside the callback of the save walk;", shortFn(fn), lineOf(w, c))
+			}
+		}
+	}
+	// 2. the callback serves the save walk only
+	_, wa := callArgs(m.save.d.c)
+	switch x := wa[2].(type) {
+	case *ssa.MakeClosure:
+		for _, ref := range *x.Referrers() {
+			if ci, isCall := ref.(ssa.CallInstruction); isCall && ci == m.save.d.c {
+				continue
+			}
+			if _, dbg := ref.(*ssa.DebugRef); dbg {
+				continue
+			}
+			bad += fmt.Sprintf(" the callback of the save walk is also used at %s (%s): vertices reach the fold that the walk from the cut did not visit;", lineOf(w, ref), ref.String())
+		}
+	}
+	if m.save.lit == false && cb != nil {
+		for _, cs := range staticCallers(w, cb) {
+			if cs.Parent().Synthetic != "" {
+				continue
+			}
+			bad += fmt.Sprintf(" the save callback %s is also called directly at %s;", shortFn(cb), lineOf(w, cs))
+		}
+	}
+	r.check(bad == "" && nFold > 0, rule, "truncate/fold-sites", lineOf(w, m.save.d.c), "the checkpoint fold sees exactly the vertices of the save walk", bad)
+}
